@@ -107,6 +107,63 @@ def crate_runs(v):
     return n
 
 
+PRELUDES = {
+    "none": "",
+    "depr": "#[rustfmt_skip]\nfn keep() {}\n\n",
+    "bogus": "#![rustfmt::bogus]\n\n",
+    "lost": "fn g() {\n    let a = foo(/* gone */);\n}\n\n",
+    "depr+lost": "#[rustfmt_skip]\nfn keep() {}\n\nfn g() {\n    let a = foo(/* gone */);\n}\n\n",
+    "bogus+lost": "#![rustfmt::bogus]\n\nfn g() {\n    let a = foo(/* gone */);\n}\n\n",
+}
+LINE_MSGS = ("left behind trailing whitespace", "line formatted, but exceeded maximum width")
+
+
+def prelude_runs(v):
+    """The line diagnostics and the exit status do not depend on what else the same run has
+    already reported: other kinds of diagnostics (a deprecated or unknown rustfmt attribute, a
+    comment that would be lost) are placed before the offending line.  Through the binary."""
+    core.build(harness=False)
+    rustfmt = core.bin_path("rustfmt")
+    wide = "a" * 120
+    n = 0
+    with Scratch("c07p") as sc:
+        for pname, pre in PRELUDES.items():
+            for kind in ("wide", "trail"):
+                for eou in ("true", "false"):
+                    for mode in (["--emit", "stdout"], ["--check"], []):
+                        if kind == "wide":
+                            body = f"fn f() {{\n    let {wide} = 1;\n}}\n"
+                            off = 2
+                        else:
+                            # a blank at the end of a line of a statement that is kept as written
+                            body = "fn f() {\n    let a = foo(/* gone */   \n    );\n}\n"
+                            off = 2
+                        line = pre.count("\n") + off
+                        f = sc / f"p{n}.rs"
+                        f.write_text(pre + body)
+                        r = subprocess.run([rustfmt] + mode + ["--config",
+                                            f"error_on_line_overflow=true,error_on_unformatted={eou},"
+                                            "color=Never", str(f)], cwd=sc,
+                                           env=core.run_env({"HOME": str(sc)}),
+                                           capture_output=True, text=True, timeout=60)
+                        n += 1
+                        got, msg = set(), None
+                        for ln in r.stderr.split("\n"):
+                            t = ln.strip()
+                            if t.startswith(("error", "warning")):
+                                msg = t.split(": ", 1)[-1]
+                            elif t.startswith("-->") and msg and msg.startswith(LINE_MSGS):
+                                got.add(int(t[3:].strip().rsplit("/", 1)[-1].split(":")[1]))
+                        if got != {line} or r.returncode != 1:
+                            v.violation(f"prelude:{pname}:{kind}:eou={eou}:{'_'.join(mode) or 'files'}",
+                                        f"run with prelude {pname!r} ({kind} at line {line}, "
+                                        f"error_on_unformatted={eou}, {' '.join(mode) or 'files'}): line "
+                                        f"diagnostics at {sorted(got)}, expected [{line}] and exit 1, got "
+                                        f"exit {r.returncode}",
+                                        {"source": pre + body, "stderr": r.stderr[-1500:]})
+    return n
+
+
 def run(tier, seed, replay=None):
     v = Verdict("C07", tier, seed)
     rng = random.Random(seed)
@@ -179,6 +236,7 @@ def run(tier, seed, replay=None):
             elif "AsModel" in f["fails"]:
                 v.drift += 1
     n_crate = crate_runs(v)
+    n_prelude = prelude_runs(v)
     for rec in urecs[:2]:
         v.sample({"text": rec["text"], "cfg": rec["cfg"], "reports": rec["reports"]})
     if emeta:
@@ -196,7 +254,7 @@ def run(tier, seed, replay=None):
                    "blanks trapped in strings/comments, the same inside #[rustfmt::skip] items "
                    "after 0..4 blank lines) through the whole formatter, output classified by "
                    "rustc_lexer; distinct_nontrivial = distinct inputs with at least one report",
-           "unit_records": n_unit, "e2e_records": len(erecs), "crate_runs": n_crate,
+           "unit_records": n_unit, "e2e_records": len(erecs), "crate_runs": n_crate, "prelude_runs": n_prelude,
            "obs_states": ostates,
            "exhaustive": False}
     return v.finish("model_checking", cov, [
